@@ -2,10 +2,26 @@ package loader
 
 import "github.com/jsightapi/jsight-schema-core/notations/jschema/ischema"
 
+// AddUnnamedTypes makes the types that the registered types carry in their own
+// tables (the unnamed types of their `or` rules first of all) known to the root
+// schema.
+//
+// The tables are walked in sorted order with a work list, not by ranging over
+// the maps while adding to them: which of the added entries such a loop visits,
+// and which of two types with the same name ends up in the root, would depend
+// on the map iteration order. A name the root already knows is never replaced.
 func AddUnnamedTypes(rootSchema *ischema.ISchema) {
-	for _, typ := range rootSchema.TypesList() {
-		for unnamed, unnamedTyp := range typ.Schema.TypesList() {
-			rootSchema.AddType(unnamed, unnamedTyp)
+	queue := rootSchema.TypeNames()
+	for len(queue) > 0 {
+		typ := rootSchema.TypesList()[queue[0]]
+		queue = queue[1:]
+
+		for _, name := range typ.Schema.TypeNames() {
+			if _, ok := rootSchema.TypesList()[name]; ok {
+				continue
+			}
+			rootSchema.AddType(name, typ.Schema.TypesList()[name])
+			queue = append(queue, name)
 		}
 	}
 }
